@@ -79,15 +79,16 @@ func (tx *Tx) change(f *FeeQuote, output *changeOutput) (uint64, bool, error) {
 	if varIntUpper == -1 {
 		return 0, false, nil
 	}
-	changeOutputFee := varIntUpper
-	changeP2pkhByteLen := uint64(0)
+	// bytes a new change output adds: the output itself plus any growth of the output counter
+	changeByteLen := uint64(0)
 	if output != nil && output.newOutput {
-		changeP2pkhByteLen = uint64(8 + 1 + 25)
+		scriptLen := uint64(len(*output.lockingScript))
+		changeByteLen = 8 + uint64(VarInt(scriptLen).Length()) + scriptLen + uint64(varIntUpper)
 	}
 
-	sFees := (size.TotalStdBytes + changeP2pkhByteLen) * uint64(stdFee.MiningFee.Satoshis) / uint64(stdFee.MiningFee.Bytes)
+	sFees := (size.TotalStdBytes + changeByteLen) * uint64(stdFee.MiningFee.Satoshis) / uint64(stdFee.MiningFee.Bytes)
 	dFees := size.TotalDataBytes * uint64(dataFee.MiningFee.Satoshis) / uint64(dataFee.MiningFee.Bytes)
-	txFees := sFees + dFees + uint64(changeOutputFee)
+	txFees := sFees + dFees
 
 	// not enough to add change, no change to add
 	if available <= txFees || available-txFees <= DustLimit {
